@@ -29,7 +29,7 @@ impl Prop for C01 {
         if tier == Tier::Thorough {
             vec!["count_0xfd_or_more", "len_64k_or_more", "segwit_tx", "verify_on", "midrun_flush", "txcount_65536"]
         } else {
-            vec!["count_0xfd_or_more", "segwit_tx", "verify_on", "midrun_flush", "noncanonical_compactsize", "high_segment_with_arbitrary_coinbase_script", "size_prefix_differs_from_block_length"]
+            vec!["count_0xfd_or_more", "segwit_tx", "verify_on", "midrun_flush", "noncanonical_compactsize", "high_segment_with_arbitrary_coinbase_script", "size_prefix_differs_from_block_length", "tx_with_over_100k_outputs"]
         }
     }
     fn explore(&self, item: u64, rng: &mut Rng, tier: Tier, h: &mut Harness) -> Result<(), String> {
@@ -78,6 +78,17 @@ impl Prop for C01 {
                 edge_values: true,
             };
             scn.chain.push(rich_block(coin, i as u64, n_tx, rng, if n_tx > 200 { &small } else { &sh }, arbitrary));
+        }
+        // one transaction with more than 100 000 outputs (a near-full block of tiny outputs)
+        if item == 77 {
+            if let Some(b) = scn.chain.last_mut() {
+                if let Some(t) = b.txs.last_mut() {
+                    let n = *rng.pick(&[100_001usize, 100_002, 131_073]);
+                    t.outputs = (0..n).map(|k| OutDesc { value: k as u64, script: Bytes(if k % 1000 == 0 { vec![0x51] } else { vec![] }) }).collect();
+                    t.cs_width = 0;
+                    h.stats.probe("tx_with_over_100k_outputs");
+                }
+            }
         }
         // a segwit transaction with a witness item of 1..4 MB (consensus-legal, e.g. large tapscript witnesses)
         if item % 97 == 5 || (tier == Tier::Thorough && item % 29 == 3) {
